@@ -257,6 +257,7 @@ fn run(input: RunInput) -> ScenFuture {
             link.spike = w.param("spike_pct", 0, 3) as f64 / 100.0;
             link.spike_max_ms = 1500;
             link.corrupt = w.param("corrupt_pct", 0, 2) as f64 / 100.0;
+            link.truncate = w.param("truncate_pct", 0, 2) as f64 / 100.0;
         }
         w.fabric.set_default_link(link);
 
